@@ -499,7 +499,10 @@ pub fn probe_workers(port: u16, lt_pk: &[u8], want: usize, max_clients: usize, a
     let mut bad = 0;
     let mut k = 0u64;
     let mut silent_waves = 0;
-    while sent < max_clients && keys.len() < want && silent_waves < 2 {
+    // requests a live server left unanswered: each is a lost request (a worker that does not serve);
+    // ten of them settle the matter, no need to wait out 48N+32 timeouts
+    let mut unanswered = 0usize;
+    while sent < max_clients && keys.len() < want && silent_waves < 2 && unanswered < 10 {
         // a small wave of sockets at a time
         let wave: Vec<(UdpSocket, Vec<u8>)> = (0..8.min(max_clients - sent))
             .map(|_| {
@@ -518,10 +521,14 @@ pub fn probe_workers(port: u16, lt_pk: &[u8], want: usize, max_clients: usize, a
             if wi > 0 && keys.values().sum::<usize>() + bad == before {
                 // nothing answered the first socket of this wave: do not wait the full timeout on the rest
                 s.set_read_timeout(Some(Duration::from_millis(150))).unwrap();
+            } else if unanswered >= 4 {
+                s.set_read_timeout(Some(Duration::from_millis(500))).unwrap();
             }
+            let mut got_datagram = false;
             loop {
                 match s.recv_from(&mut buf) {
                     Ok((l, _)) => {
+                        got_datagram = true;
                         match authentic(&buf[..l], req, rtref::Version::Classic, Some(lt_pk), SERVER_VIEW) {
                             Ok(info) => *keys.entry(info.online_pk).or_insert(0) += 1,
                             Err(_) => {
@@ -540,6 +547,9 @@ pub fn probe_workers(port: u16, lt_pk: &[u8], want: usize, max_clients: usize, a
                     Err(e) if e.kind() == std::io::ErrorKind::Interrupted => continue,
                     Err(_) => break,
                 }
+            }
+            if !got_datagram {
+                unanswered += 1;
             }
         }
         if keys.values().sum::<usize>() + bad == before {
